@@ -169,3 +169,72 @@ pub fn sample_json(subj: &dyn DynSubject, v: &Val, bytes: Option<&[u8]>, extra: 
         "env": extra,
     })
 }
+
+/// Attach `n` bytes of generated entropy to a value strategy: the case becomes
+/// `Rec([value, P(entropy)])`, so that environment choices shrink and replay with the value.
+pub fn with_entropy(s: proptest::strategy::BoxedStrategy<Val>, n: usize) -> proptest::strategy::BoxedStrategy<Val> {
+    use proptest::prelude::*;
+    if REPLAY_VAL.with(|c| c.borrow().is_some()) {
+        return s;
+    }
+    (s, proptest::collection::vec(any::<u8>(), n..=n)).prop_map(|(v, e)| Val::Rec(vec![v, Val::P(e)])).boxed()
+}
+
+pub fn split_entropy(case: &Val) -> (&Val, &[u8]) {
+    match case {
+        Val::Rec(x) if x.len() == 2 && matches!(x[1], Val::P(_)) => (&x[0], x[1].bytes()),
+        _ => panic!("case without entropy"),
+    }
+}
+
+/// Deterministic picks from entropy bytes.
+pub struct Ent<'a> {
+    b: &'a [u8],
+    i: usize,
+}
+
+impl<'a> Ent<'a> {
+    pub fn new(b: &'a [u8]) -> Self {
+        Ent { b, i: 0 }
+    }
+    pub fn byte(&mut self) -> u8 {
+        let x = if self.b.is_empty() { 0 } else { self.b[self.i % self.b.len()] };
+        self.i += 1;
+        x
+    }
+    pub fn u64(&mut self) -> u64 {
+        let mut x = 0u64;
+        for _ in 0..8 {
+            x = (x << 8) | self.byte() as u64;
+        }
+        x
+    }
+    /// monotone pick in 0..n
+    pub fn pick(&mut self, n: usize) -> usize {
+        if n <= 1 {
+            return 0;
+        }
+        let x = ((self.byte() as u64) << 8 | self.byte() as u64) as usize;
+        (x * n) >> 16
+    }
+}
+
+pub fn hash_sub(subj: &str, v: &Val, tag: &str, a: u64, b: u64) -> u64 {
+    crate::report::hash_case(&[subj, tag], v, a.wrapping_mul(0x9e3779b97f4a7c15) ^ b)
+}
+
+/// Compare two streams of the same value ignoring compiler padding inside zero-copy blocks.
+pub fn same_masked(enc: &Encoded, a: &[u8], b: &[u8]) -> bool {
+    a.len() == b.len() && a.len() <= enc.mask.len() && (0..a.len()).all(|i| !enc.mask[i] || a[i] == b[i])
+}
+
+/// `a` is a prefix of `full` modulo masked bytes.
+pub fn prefix_masked(enc: &Encoded, a: &[u8], full: &[u8]) -> bool {
+    a.len() <= full.len() && (0..a.len()).all(|i| !enc.mask.get(i).copied().unwrap_or(true) || a[i] == full[i])
+}
+
+pub const BOUNDS_PANICS: [&str; 5] = ["range end index", "range start index", "index out of bounds", "out of range for slice", "slice index starts at"];
+
+pub fn is_bounds_panic(p: &str) -> bool {
+    BOUNDS_PANICS.iter().any(|m| p.contains(m)) && p.contains("epserde/src/")
+}
